@@ -215,7 +215,7 @@ CLASSES = ["ties", "repeat", "clear", "boundary", "late", "odd", "random", "rand
 
 
 def gen_cases(rng, tier):
-    n = 4000 if tier == "thorough" else 300
+    n = 3000 if tier == "thorough" else 300
     cs = [Case("1000000000 T,-,- S1:5,S0:5,S0:3,A5000000,A5000000,S0:2,C,A10000000", "fixed"),
           Case("0 TTF S1:1,A999999,A1,A1000000,A5000000,A1000000", "fixed"),
           Case("5 - S0:0,A1000000,S0:1,A1000000", "fixed")]
